@@ -69,9 +69,28 @@ fn observe_run(sum: &RunSummary, out: &mut Observed) {
     split_dumps(&sum.dumps, out);
 }
 
+pub static SYMLINKED: std::sync::atomic::AtomicU64 = std::sync::atomic::AtomicU64::new(0);
+
 /// Execute one configuration of one case in the sandbox; returns everything observable.
 pub fn execute(sb: &Sandbox, files: &Files, layout: &Layout, topo: Option<&[String]>, cfg: &Config) -> (Observed, u64, Vec<String>) {
     sb.materialise(files);
+    // one decision vector in four keeps a source file of a multi-file package elsewhere, behind
+    // a symbolic link (a shared or vendored file): same spelling, same bytes, same result
+    if cfg.order % 4 == 3 {
+        let multi: Vec<&ops::PkgLayout> = layout.pkgs.values().filter(|p| p.files.len() >= 2).collect();
+        if !multi.is_empty() {
+            let pk = multi[((cfg.order / 4) as usize) % multi.len()];
+            if let Some(rel) = pk.files.iter().find(|f| f.as_str() != "main.gom") {
+                if let Some(bytes) = sb.read(rel) {
+                    let target = format!("zz_store/zzzz_{}", rel.replace('/', "__"));
+                    sb.write(&target, &bytes);
+                    sb.remove(rel);
+                    let _ = std::os::unix::fs::symlink(sb.path(&target), sb.path(rel));
+                    SYMLINKED.fetch_add(1, std::sync::atomic::Ordering::Relaxed);
+                }
+            }
+        }
+    }
     let mut obs = Observed::new();
     let spec = ProcSpec { entropy: cfg.entropy, readdir: cfg.readdir, ..Default::default() };
     let (sum, _c, shell) = ops::run_main(sb, &spec, true);
@@ -425,7 +444,7 @@ fn check_case(sb: &Sandbox, opts: &Opts, idx: usize, case: &Case, runs: usize, p
                         d.push("directory enumeration order");
                     }
                     if cfg_b.order != c0.order {
-                        d.push("order of list arguments");
+                        d.push("order of list arguments / a source file kept behind a symbolic link");
                     }
                     d.join(" + ")
                 }
@@ -566,6 +585,7 @@ pub fn run(opts: &Opts) -> i32 {
             violations.push(v);
         }
     }
+    ev.fault("layout:source-file-behind-a-symbolic-link", SYMLINKED.load(std::sync::atomic::Ordering::Relaxed));
     ev.extra.insert("projects".into(), json!(all.len()));
     ev.extra.insert("projects_nontrivial".into(), json!(nontrivial_cases));
     ev.extra.insert("decision_vectors_per_project".into(), json!(runs + 1));
